@@ -643,7 +643,9 @@ fn parse_positional<'a>(
         }
     };
     match state {
-        ParseState::ValueDone => {
+        // An option still waiting for values gives way to the positional: a flag-looking word that is
+        // no known flag was routed here because the positional accepts hyphen values
+        ParseState::ValueDone | ParseState::Opt(..) => {
             update_state_with_new_positional(pos_index)
         },
         ParseState::Pos((prev_pos_index, num_arg)) => {
@@ -661,10 +663,6 @@ fn parse_positional<'a>(
                 update_state_with_new_positional(pos_index)
             }
         }
-        ParseState::Opt(..) => unreachable!(
-            "This branch won't be hit,
-            because ParseState::Opt should not be seen as a positional argument and passed to this function."
-        ),
     }
 }
 
